@@ -228,14 +228,14 @@ def gen_jobs(ctx):
     sizes_big = [255, 256, 257, 8191, 8192, 8193]
     if ctx.quick():
         for k in F.KINDS:
-            for n in rng.sample(sizes_small, 2) + rng.sample(sizes_big, 1):
+            for n in rng.sample(sizes_small, 4) + rng.sample(sizes_big, 2):
                 jobs.append(_one(rng, k, n))
     else:
         for k in F.KINDS:
             for n in sizes_small + sizes_big:
                 for _ in range(2):
                     jobs.append(_one(rng, k, n))
-    for _ in range(240 if ctx.quick() else 2500):
+    for _ in range(500 if ctx.quick() else 2500):
         spec = F.gen_spec(rng, n=rng.choice(sizes_small + ([257, 8193] if rng.random() < 0.1 else [])))
         o = rt.gen_opts(rng, spec)
         o["file_scheme"] = rng.choice(["simple", "simple", "hive", "drill"])
